@@ -42,11 +42,14 @@ def horizon(sc):
 
 
 def run_one(sc, prefix=(), seed=0, keep=False):
-    from ..scen import Driver
-    d = Driver(sc, prefix, seed)
+    from ..scen import Driver, HoldApp
+    hold = HoldApp(sc['preempt_app']['msg'], sc['preempt_app']['point']) if sc.get('preempt_app') else None
+    d = Driver(sc, prefix, seed, trace_factory=hold)
     try:
         d.run()
         probs = d.standard_problems()
+        if hold is not None:
+            sc['_line_events'] = hold.count
         probs = [p.replace('within capacity', 'on a free (SA,DA) pair') for p in probs]
         return d.net.chooser.points, probs, d.net.outcome(), d.net.trace() if keep else None
     finally:
@@ -69,7 +72,33 @@ def sig_of(probs):
     return p
 
 
+def concurrent_worker(item):
+    """two application threads call send_pgn at the same time (different pairs); the first one is suspended for 1 ms at every
+    source line it executes inside the data link layer while the second call runs"""
+    _k, base, seed = item
+    acc = Acc()
+    counts = []
+    for _ in range(2):
+        sc0 = dict(base, preempt_app={'msg': 0, 'point': 0})
+        run_one(sc0, (), seed)
+        counts.append(sc0.get('_line_events'))
+    if not counts[0] or counts[0] != counts[1]:
+        acc.violation("HARNESS: line-event numbering of the application thread not reproducible", base, None, [repr(counts)])
+        return acc
+    for pt in range(1, counts[0] + 1):
+        sc = dict(base, preempt_app={'msg': 0, 'point': pt})
+        points, probs, outcome, _ = run_one(sc, (), seed)
+        sc.pop('_line_events', None)
+        acc.case(sc_key(sc), nontrivial=True, outcome=outcome)
+        if probs:
+            acc.violation(sig_of(probs), sc, None, probs[:4])
+    acc.sample({'scenario': base, 'line_events': counts[0]})
+    return acc
+
+
 def worker(item):
+    if item[0] == 'concurrent':
+        return concurrent_worker(item)
     sc, bound, seed = item
     acc = Acc()
     kinds = set(sc.get('dev_kinds', ['lat', 'wake']))
@@ -237,6 +266,14 @@ ASSUME = ["payload contents outside three patterns are not enumerated (the trans
 def run(tier, seed):
     items = [(sc, b, seed) for (sc, b) in scenarios(tier)]
     items.sort(key=lambda it: -(it[1] * 1000 + sum(m['size'] for m in it[0]['msgs'])))
+    for (m1, m2) in [(msg(0x10, 'p2p', 0x20, 20), msg(0x10, 'p2p', 0x30, 23, pat=1)),
+                     (msg(0x10, 'p2p', 0x20, 20), msg(0x11, 'p2p', 0x20, 23, pat=1)),
+                     (msg(0x10, 'p2p', 0x20, 20), msg(0x11, 'bam2', 0x42, 23, pat=1)),
+                     (msg(0x10, 'bam2', 0x41, 20), msg(0x11, 'bam2', 0x42, 23, pat=1)),
+                     (msg(0x10, 'bam2', 0x41, 20), msg(0x10, 'p2p', 0x20, 23, pat=1))]:
+        base = {'dll': DLL, 'stacks': stacks3(2, 2, 2), 'base_lat': 1e-3, 'app_threads': True,
+                'msgs': [m1, dict(m2, at=0.0003)]}
+        items.append(('concurrent', base, seed))
     return run_check(PROP, tier, seed, 'exploration', items, worker, RULE, ASSUME,
                      bounds={'deviation_bound': 1 if tier == 'quick' else 2, 'latency_grid_ms': [0, 0.2, 1, 5],
                              'wake_grid_ms': [0.05, 1, 5]})
